@@ -20,11 +20,11 @@ SPEC = {
              "(one case in twenty) mostly together with a cancel 0-100 ms into the run (run once); every other case runs 3 times. A nil result is accepted only if "
              "every pool used up its ammo or its schedule, cancel or not; the cancellation error must come within 1 s of the cancel. "
              "Non-trivial = a fault was actually reached or the cancel arrived while Run was in progress; distinct = hash of the case."),
-    "floors": {"TestOutcome/fault_provider": 0.05, "TestOutcome/fault_aggregator": 0.05, "TestOutcome/fault_sched": 0.02,
-               "TestOutcome/fault_factory": 0.02, "TestOutcome/fault_bind": 0.02, "TestOutcome/fault_warmup": 0.02,
+    "floors": {"TestOutcome/fault_provider": 0.05, "TestOutcome/fault_aggregator": 0.036, "TestOutcome/fault_sched": 0.02,
+               "TestOutcome/fault_factory": 0.015, "TestOutcome/fault_bind": 0.02, "TestOutcome/fault_warmup": 0.013,
                "TestOutcome/fault_shot_panic": 0.01, "TestOutcome/cancel_in_progress": 0.1, "TestOutcome/pools_gt_1": 0.2,
                "TestOutcome/provider_fault_at_end": 0.02, "TestOutcome/aggregator_fault_at_end": 0.02,
-               "TestOutcome/own_deadline_error_at_end": 0.015, "TestOutcome/err_shape_pkg_wrapped": 0.02,
+               "TestOutcome/own_deadline_error_at_end": 0.011, "TestOutcome/err_shape_pkg_wrapped": 0.02,
                "TestOutcome/panic_kind_int": 2, "TestOutcome/panic_kind_struct": 2, "TestOutcome/panic_kind_runtime": 2,
                "TestOutcome/pool_ids_equal": 0.07, "TestOutcome/pool_id_equals_default_name_of_other": 0.04,
                "TestOutcome/pool_ids_equal_and_fault_reached": 0.03, "TestOutcome/cancel_inside_blind_step": 0.02,
